@@ -1,11 +1,16 @@
 import DM.Lemmas.B256Gen
+import DM.Lemmas.EdiGen
+import DM.Lemmas.PlanProv
 /-
-Data-level round trip for mixed plans over ASCII, C40, Text, X12 and Base 256: the invariant of
-the encoder's main loop and its preservation by every mode encoder.
+Data-level round trip for mixed plans over ASCII, C40, Text, X12, Base 256 and EDIFACT as the final
+stretch of the message (`C40Gen.PlanOKE`): the invariant of the encoder's main loop and its
+preservation by every mode encoder. `MI false` is the invariant for plans without EDIFACT
+(`C40Gen.PlanOK`; used by `Trace` / C13), `MI true` also has the two situations behind an EDIFACT run.
 -/
 namespace DM.Lemmas.MainRT
 open DM.Model DM.Model.Enc DM.Model.Dec DM.Gen DM.Lemmas DM.Lemmas.DecRun DM.Lemmas.AsciiRT DM.Lemmas.Complete
 open DM.Lemmas.EncRT DM.Lemmas.X12RT DM.Lemmas.B256RT DM.Lemmas.EdiRT DM.Lemmas.C40RT DM.Lemmas.C40Gen DM.Lemmas.B256Gen
+open DM.Lemmas.EdiGen DM.Lemmas.PlanProv
 open DM.Spec.Build
 
 /-- `X` after the latch decodes to `chunk`, with or without UNLATCH, in front of any legal tail -/
@@ -19,7 +24,7 @@ structure TEnd (list : List Sym) (body : List Nat) (p0 : Nat) (c0 : List Nat) (l
   out : ∃ (X : List Nat) (p : Nat) (un : Bool), SegDec latch X (seg body p0 p) ∧ p0 ≤ p ∧ p ≤ body.length ∧
     s'.cw = c0 ++ latch :: X ++ (if un then [254] else []) ∧ s'.pos = p ∧ s'.input = body ∧ s'.list = list ∧
     ((s'.mode = .ascii ∧ s'.plan = [(0, .ascii)] ∧ s'.newMode = none) ∨
-     (un = true ∧ s'.hasMore = true ∧ Pending s' ∧ PlanOK s'.plan) ∨ (p = body.length ∧ un = false)) ∧
+     (un = true ∧ s'.hasMore = true ∧ Pending s' ∧ PlanOKE body s'.plan) ∨ (p = body.length ∧ un = false)) ∧
     (un = false → asciiSize (body.drop p) ≤ 1 ∧
       ∃ S, firstBigEnough list (s'.cw.length + asciiSize (body.drop p)) = some S ∧
         dataCw S = s'.cw.length + asciiSize (body.drop p))
@@ -37,13 +42,14 @@ theorem c40_to_TEnd (text : Bool) (list : List Sym) (body : List Nat) (p0 : Nat)
 
 /-! ### X12 from an arbitrary position -/
 
-theorem x12Loop_plan : ∀ (f : Nat) (s s' : St) (sw : Bool), x12Loop f s = .ok (s', sw) → s.newMode = none → PlanOK s.plan →
-    PlanOK s'.plan ∧ (sw = true → Pending s' ∧ (s'.charsLeft ≤ 4 → s'.newMode = none)) := by
+theorem x12Loop_plan (body : List Nat) : ∀ (f : Nat) (s s' : St) (sw : Bool), x12Loop f s = .ok (s', sw) → s.newMode = none →
+    s.input = body → PlanOKE body s.plan →
+    PlanOKE body s'.plan ∧ (sw = true → Pending s' ∧ (s'.charsLeft ≤ 4 → s'.newMode = none)) := by
   intro f
   induction f with
   | zero => intro s s' sw h; cases h
   | succ f ih =>
-    intro s s' sw h hnm hpl
+    intro s s' sw h hnm hin hpl
     unfold x12Loop at h
     by_cases hc : s.charsLeft ≥ 3
     · rw [if_pos hc] at h
@@ -66,13 +72,17 @@ theorem x12Loop_plan : ∀ (f : Nat) (s s' : St) (sw : Bool), x12Loop f s = .ok 
               simp only [Except.ok.injEq, Prod.mk.injEq] at h
               obtain ⟨hs, hsw⟩ := h
               subst hs hsw
-              obtain ⟨hP, hL, hPl⟩ := switched_ok _ s3 (by rw [w7]; exact hnm) (by rw [w5]; exact hpl) hm
+              obtain ⟨hP, hL, hPl⟩ := switched_ok _ s3 (by rw [w7]; exact hnm) (by rw [w5, w3]; simp only []; rw [hin]; exact hpl) hm
+              rw [w3] at hPl
+              simp only [] at hPl
+              rw [hin] at hPl
               exact ⟨hPl, fun _ => ⟨hP, hL⟩⟩
             | false =>
               simp only [] at h
               obtain ⟨m1, m2, m3, m4, m5, m6⟩ := maybeSwitch_spec _ s3 false hm
               obtain ⟨f1, f2⟩ := m5 rfl
-              exact ih s3 s' sw h (by rw [f2, w7]; exact hnm) (fun e he => hpl e (by rw [← w5]; exact m4 e he))
+              exact ih s3 s' sw h (by rw [f2, w7]; exact hnm) (by rw [m1.1, w3]; exact hin)
+                (planOKE_maybeSwitch _ s3 false hm (by rw [w5]; exact hpl))
         · cases h
         · cases h
         · cases h
@@ -85,7 +95,7 @@ theorem x12Loop_plan : ∀ (f : Nat) (s s' : St) (sw : Bool), x12Loop f s = .ok 
 
 theorem x12Encode_gen (list : List Sym) (body : List Nat) (p0 : Nat) (c0 : List Nat) (sL s3 : St)
     (hin : sL.input = body) (hli : sL.list = list) (hpos : sL.pos = p0) (hle : p0 ≤ body.length)
-    (hnm : sL.newMode = none) (hcw : sL.cw = c0 ++ [238]) (hpl : PlanOK sL.plan)
+    (hnm : sL.newMode = none) (hcw : sL.cw = c0 ++ [238]) (hpl : PlanOKE body sL.plan)
     (h : x12Encode sL = .ok s3) : TEnd list body p0 c0 238 s3 := by
   unfold x12Encode at h
   cases hl : x12Loop (sL.charsLeft + 2) sL with
@@ -95,7 +105,7 @@ theorem x12Encode_gen (list : List Sym) (body : List Nat) (p0 : Nat) (c0 : List 
     rw [hl] at h
     simp only [] at h
     obtain ⟨n, run⟩ := x12Loop_gen _ sL s2 sw hl
-    obtain ⟨hPl2, hsw2⟩ := x12Loop_plan _ sL s2 sw hl hnm hpl
+    obtain ⟨hPl2, hsw2⟩ := x12Loop_plan body _ sL s2 sw hl hnm hin hpl
     have hp2 : s2.pos = p0 + 3 * n := by rw [run.pos, hpos]
     have hle2 : s2.pos ≤ body.length := by rw [← hin]; exact run.le (by rw [hpos, hin]; exact hle)
     have hin2 : s2.input = body := run.same.1.trans hin
@@ -130,7 +140,7 @@ theorem x12Encode_gen (list : List Sym) (body : List Nat) (p0 : Nat) (c0 : List 
         obtain ⟨hP, _⟩ := hsw2 rfl
         exact ⟨_, s2.pos, true, hsd, by omega, hle2, by simp [St.push, hcw2], rfl,
           by simp [St.push, hin2], by simp [St.push, hli2],
-          Or.inr (Or.inl ⟨rfl, by simpa [St.hasMore, St.push] using a2, by simpa [Pending, St.push] using hP,
+          Or.inr (Or.inl ⟨rfl, by simpa [St.hasMore, St.push] using a2, hP.congr rfl rfl rfl rfl rfl,
             by simpa [St.push] using hPl2⟩), by simp⟩
     have exact : s2.hasMore = false → s2.sizeLeft 0 = some 0 → TEnd list body p0 c0 238 s2 := by
       intro hmf hfit
@@ -218,10 +228,12 @@ def SyncEnd (pre out0 body cw : List Nat) (pos : Nat) : Prop :=
 
 def ExactFit (list : List Sym) (n : Nat) : Prop := ∃ S, firstBigEnough list n = some S ∧ dataCw S = n
 
-/-- the three situations the encoder can be in between two calls of a mode encoder -/
-inductive Phase (pre out0 : List Nat) (list : List Sym) (body : List Nat) (s : St) : Prop where
+/-- the situations the encoder can be in between two calls of a mode encoder. The flag `e` says
+whether EDIFACT (as the final stretch of the message) is allowed: the last two situations only
+arise behind an EDIFACT run. -/
+inductive Phase (e : Bool) (pre out0 : List Nat) (list : List Sym) (body : List Nat) (s : St) : Prop where
   /-- decoder and encoder in step, in ASCII mode or with a latch pending -/
-  | normal (sync : Sync pre out0 body s.cw s.pos) (pend : Pending s) (plan : PlanOK s.plan)
+  | normal (sync : Sync pre out0 body s.cw s.pos) (pend : Pending s) (plan : PlanOKE body s.plan)
       (more : s.newMode ≠ none → s.hasMore = true)
   /-- a run ended without UNLATCH: exactly one ASCII codeword is still to come and fills the symbol -/
   | endgame (more : s.hasMore = true) (sync : SyncEnd pre out0 body s.cw s.pos) (mode : s.mode = .ascii)
@@ -231,6 +243,21 @@ inductive Phase (pre out0 : List Nat) (list : List Sym) (body : List Nat) (s : S
   | done (nomore : s.hasMore = false) (pfx : s.cw.take pre.length = pre)
       (dec : ∃ e, decRun .ascii { rest := s.cw.drop pre.length, eaten := pre.length, out := out0, ecis := [] } =
         .ok { rest := [], eaten := e, out := out0 ++ body, ecis := [] }) (fit : ExactFit list s.cw.length)
+  /-- an EDIFACT run of complete quadruples handed the last (at most four) characters to ASCII: at
+  most two more codewords fit into the symbol, so the decoder leaves EDIFACT mode without UNLATCH -/
+  | ediAscii (he : e = true) (more : s.hasMore = true) (len : pre.length ≤ s.cw.length) (pfx : s.cw.take pre.length = pre)
+      (sync : ∀ tail, tail.length ≤ 2 →
+        decRun .ascii { rest := s.cw.drop pre.length ++ tail, eaten := pre.length, out := out0, ecis := [] } =
+        decRun .ascii { rest := tail, eaten := s.cw.length, out := out0 ++ body.take s.pos, ecis := [] })
+      (mode : s.mode = .ascii) (plan : s.plan = [(0, .ascii)]) (nm : s.newMode = none)
+      (ok : AsciiEndOK list s.cw.length (body.drop s.pos))
+  /-- everything is written (behind an EDIFACT run); whatever padding the symbol needs decodes well -/
+  | final (he : e = true) (nomore : s.hasMore = false) (mode : s.mode = .ascii) (len : pre.length ≤ s.cw.length)
+      (pfx : s.cw.take pre.length = pre)
+      (dec : ∀ S, firstBigEnough list s.cw.length = some S →
+        ∃ ef, decRun .ascii { rest := s.cw.drop pre.length ++ DM.Props.C04.padsOf s.cw.length (dataCw S - s.cw.length),
+                              eaten := pre.length, out := out0, ecis := [] } =
+          .ok { rest := [], eaten := ef, out := out0 ++ body, ecis := [] })
 
 /-- the first codeword is not one of those `decode_parts` looks at before the main loop -/
 def HeadOK (cw : List Nat) : Prop := ∀ c ∈ cw.head?, c ≠ 232 ∧ c ≠ 236 ∧ c ≠ 237
@@ -253,27 +280,71 @@ theorem headOK_asciiSeg {X chunk : List Nat} (h : AsciiSeg X chunk) : HeadOK X :
     have := h.1 x (by simp)
     exact ⟨this.2.2.1, this.2.2.2.1, this.2.2.2.2⟩
 
-structure MI (pre out0 : List Nat) (list : List Sym) (body : List Nat) (s : St) : Prop where
+/-- EDIFACT occurs nowhere in the control part of the encoder state -/
+def NE : Key → Prop := fun k => (∀ x ∈ k.1, x.2 ≠ .edifact) ∧ k.2.1 ≠ .edifact ∧ k.2.2 ≠ some 240
+
+theorem ne_closed : Closed NE := by
+  refine ⟨?_, ?_, ?_⟩
+  · intro k hk
+    refine ⟨?_, by simp [asciiKey], hk.2.2⟩
+    intro x hx
+    simp only [asciiKey, List.mem_singleton] at hx
+    subst hx
+    simp
+  · intro s s1 b h hk
+    obtain ⟨h1, h2, h3⟩ := hk
+    simp only [key] at h1 h2 h3 ⊢
+    obtain ⟨m1, m2, m3, m4, m5, m6⟩ := maybeSwitch_spec s s1 b h
+    refine ⟨fun x hx => h1 x (m4 x hx), ?_, ?_⟩
+    · cases b with
+      | false => rw [(m5 rfl).1]; exact h2
+      | true => obtain ⟨_, _, ⟨p, hp⟩, _⟩ := m6 rfl; exact h1 _ hp
+    · cases b with
+      | false => rw [(m5 rfl).2]; exact h3
+      | true =>
+        obtain ⟨_, _, ⟨p, hp⟩, t4⟩ := m6 rfl
+        rw [t4]
+        have hne : s1.mode ≠ .edifact := h1 _ hp
+        cases hm : s1.mode with
+        | edifact => exact absurd hm hne
+        | ascii => simpa [EMode.latch] using h3
+        | c40 => simp [EMode.latch]
+        | text => simp [EMode.latch]
+        | x12 => simp [EMode.latch]
+        | base256 => simp [EMode.latch]
+  · intro k hk
+    exact ⟨hk.1, hk.2.1, by simp⟩
+
+theorem ne_of_planOK {plan : List (Nat × EMode)} (h : PlanOK plan) : NE (plan, .ascii, none) :=
+  ⟨fun x hx => (h x hx).2, by simp, by simp⟩
+
+/-- the admissible plans form a closed predicate on the control part of the state -/
+theorem planOKE_closed (body : List Nat) : Closed (fun k : Key => PlanOKE body k.1) :=
+  ⟨fun _ _ => planOKE_ascii body, fun s s1 b h hk => planOKE_maybeSwitch s s1 b h hk, fun _ hk => hk⟩
+
+structure MI (e : Bool) (pre out0 : List Nat) (list : List Sym) (body : List Nat) (s : St) : Prop where
   inp : s.input = body
   lst : s.list = list
   le : s.pos ≤ body.length
   hd : HeadOK (s.cw.drop pre.length)
-  phase : Phase pre out0 list body s
+  phase : Phase e pre out0 list body s
+  noE : e = false → NE (key s)
 
 theorem niceTail_cons (c : Nat) (t : List Nat) (h : c ≠ 254) : NiceTail (c :: t) := by
   unfold NiceTail; simpa using h
 
 /-- a C40 / Text / X12 run extends the invariant -/
-theorem tend_MI (pre out0 : List Nat) (list : List Sym) (body : List Nat) (p0 : Nat) (c0 : List Nat) (latch : Nat) (hl : latch ≠ 254)
+theorem tend_MI (e : Bool) (pre out0 : List Nat) (list : List Sym) (body : List Nat) (p0 : Nat) (c0 : List Nat) (latch : Nat) (hl : latch ≠ 254)
     (hl2 : latch ≠ 232 ∧ latch ≠ 236 ∧ latch ≠ 237) (hc0 : HeadOK (c0.drop pre.length))
-    (s' : St) (hsync : Sync pre out0 body c0 p0) (h : TEnd list body p0 c0 latch s') : MI pre out0 list body s' := by
+    (s' : St) (hsync : Sync pre out0 body c0 p0) (h : TEnd list body p0 c0 latch s') (hne : e = false → NE (key s')) :
+    MI e pre out0 list body s' := by
   obtain ⟨X, p, un, hsd, hp0, hp, hcw, hpos, hin, hli, hctl, hex⟩ := h.out
   obtain ⟨hpl, hpt, hsync⟩ := hsync
   have hcw' : s'.cw = c0 ++ (latch :: X ++ (if un then [254] else [])) := by rw [hcw]; simp
   have hpl' : pre.length ≤ s'.cw.length := by rw [hcw']; simp; omega
   have hpt' : s'.cw.take pre.length = pre := by rw [hcw', take_append_pre pre c0 _ hpl]; exact hpt
   refine ⟨hin, hli, by rw [hpos]; exact hp,
-    by rw [hcw', drop_append_pre pre c0 _ hpl]; exact headOK_append hc0 (headOK_cons latch _ hl2), ?_⟩
+    by rw [hcw', drop_append_pre pre c0 _ hpl]; exact headOK_append hc0 (headOK_cons latch _ hl2), ?_, hne⟩
   have hstep : ∀ tail, TripleTail un tail →
       decRun .ascii { rest := s'.cw.drop pre.length ++ tail, eaten := pre.length, out := out0, ecis := [] } =
       decRun .ascii { rest := tail, eaten := s'.cw.length, out := out0 ++ body.take s'.pos, ecis := [] } := by
@@ -292,7 +363,7 @@ theorem tend_MI (pre out0 : List Nat) (list : List Sym) (body : List Nat) (p0 : 
   | true =>
     have hs : Sync pre out0 body s'.cw s'.pos := ⟨hpl', hpt', fun tail ht => hstep tail ⟨ht, by simp⟩⟩
     rcases hctl with ⟨a1, a2, a3⟩ | ⟨_, a2, a3, a4⟩ | ⟨_, a2⟩
-    · exact .normal hs (Or.inl ⟨a1, a3⟩) (by rw [a2]; intro e he; simp at he; subst he; simp)
+    · exact .normal hs (Or.inl ⟨a1, a3⟩) (by rw [a2]; exact planOKE_ascii body)
         (fun hne => absurd a3 hne)
     · exact .normal hs a3 a4 (fun _ => a2)
     · cases a2
@@ -323,9 +394,10 @@ theorem tend_MI (pre out0 : List Nat) (list : List Sym) (body : List Nat) (p0 : 
       rw [this, decRun_nil _ _ rfl, hposl, List.take_length]
 
 /-- a Base 256 run extends the invariant -/
-theorem bend_MI (pre out0 : List Nat) (list : List Sym) (body : List Nat) (hb : ByteList body) (p0 : Nat) (c0 : List Nat)
+theorem bend_MI (e : Bool) (pre out0 : List Nat) (list : List Sym) (body : List Nat) (hb : ByteList body) (p0 : Nat) (c0 : List Nat)
     (hc0 : HeadOK (c0.drop pre.length))
-    (s' : St) (hsync : Sync pre out0 body c0 p0) (h : BEnd list body p0 c0 s') : MI pre out0 list body s' := by
+    (s' : St) (hsync : Sync pre out0 body c0 p0) (h : BEnd list body p0 c0 s') (hne : e = false → NE (key s')) :
+    MI e pre out0 list body s' := by
   obtain ⟨p, toEnd, hp0, hp, hcw, hpos, hin, hli, hte, htf, hctl⟩ := h.out
   obtain ⟨hpl, hpt, hsync⟩ := hsync
   have hcw' : s'.cw = c0 ++ ([231] ++ randFrom (c0.length + 2) (b256Hdr (seg body p0 p) toEnd ++ seg body p0 p)) := by
@@ -333,7 +405,7 @@ theorem bend_MI (pre out0 : List Nat) (list : List Sym) (body : List Nat) (hb : 
   have hpl' : pre.length ≤ s'.cw.length := by rw [hcw']; simp; omega
   have hpt' : s'.cw.take pre.length = pre := by rw [hcw', take_append_pre pre c0 _ hpl]; exact hpt
   refine ⟨hin, hli, by rw [hpos]; exact hp,
-    by rw [hcw', drop_append_pre pre c0 _ hpl]; exact headOK_append hc0 (headOK_cons 231 _ (by omega)), ?_⟩
+    by rw [hcw', drop_append_pre pre c0 _ hpl]; exact headOK_append hc0 (headOK_cons 231 _ (by omega)), ?_, hne⟩
   have hstep : ∀ tail, NiceTail tail → B256OK (seg body p0 p) toEnd tail →
       decRun .ascii { rest := s'.cw.drop pre.length ++ tail, eaten := pre.length, out := out0, ecis := [] } =
       decRun .ascii { rest := tail, eaten := s'.cw.length, out := out0 ++ body.take s'.pos, ecis := [] } := by
@@ -357,7 +429,7 @@ theorem bend_MI (pre out0 : List Nat) (list : List Sym) (body : List Nat) (hb : 
         have := seg_length body p0 p (by omega) hp
         exact ⟨by omega, htf rfl⟩⟩⟩
     rcases hctl with ⟨a1, a2, a3, _⟩ | ⟨_, a2, a3, a4⟩
-    · exact .normal hs (Or.inl ⟨a1, a3⟩) (by rw [a2]; intro e he; simp at he; subst he; simp)
+    · exact .normal hs (Or.inl ⟨a1, a3⟩) (by rw [a2]; exact planOKE_ascii body)
         (fun hne => absurd a3 hne)
     · exact .normal hs a3 a4 (fun _ => a2)
   | true =>
@@ -367,6 +439,220 @@ theorem bend_MI (pre out0 : List Nat) (list : List Sym) (body : List Nat) (hb : 
     have := hstep [] (by simp [NiceTail]) ⟨seg_bytes body hb p0 p, by simp⟩
     simp only [List.append_nil] at this
     rw [this, decRun_nil _ _ rfl, hpos, hposl, List.take_length]
+
+/-! ### EDIFACT as the final stretch: the decoder side -/
+
+theorem padsOf_length (a b : Nat) : (DM.Props.C04.padsOf a b).length = b := by
+  unfold DM.Props.C04.padsOf
+  split
+  · simp; omega
+  · have : ∀ p n, (padsFrom p n).length = n := by
+      intro p n
+      induction n generalizing p with
+      | zero => rfl
+      | succ n ih => simp [padsFrom, ih]
+    simp [this]; omega
+
+theorem niceTail_pads (a b : Nat) : NiceTail (DM.Props.C04.padsOf a b) := by
+  unfold NiceTail DM.Props.C04.padsOf
+  split <;> simp
+
+theorem ediC_take (b : List Nat) (q : Nat) : ediC (b.take (4 * q)) q = ediC b q := by
+  unfold ediC
+  rw [List.take_take]
+  simp
+
+/-- complete quadruples in front of at most two more codewords -/
+theorem edi_sync2 (pre out0 body c0 : List Nat) (p0 q : Nat) (hsync : Sync pre out0 body c0 p0)
+    (hc : EdiChars (bE body p0)) (hq : p0 + 4 * q ≤ body.length) (tail : List Nat) (ht : tail.length ≤ 2) :
+    decRun .ascii { rest := (cwE body p0 c0 q).drop pre.length ++ tail, eaten := pre.length, out := out0, ecis := [] } =
+    decRun .ascii { rest := tail, eaten := (cwE body p0 c0 q).length, out := out0 ++ body.take (p0 + 4 * q), ecis := [] } := by
+  obtain ⟨hpl, hpt, hs⟩ := hsync
+  have hlen : 4 * q ≤ (bE body p0).length := by simp only [bE, List.length_drop]; omega
+  have hcw := ediC_eq_cw ((bE body p0).take (4 * q)) q (by simp; omega) (by simp; omega) false (by simp; omega)
+  simp only [Bool.false_eq_true, ↓reduceIte, List.append_nil] at hcw
+  rw [ediC_take] at hcw
+  unfold cwE
+  rw [hcw, drop_append_pre pre c0 _ hpl]
+  have h1 := hs ([240] ++ ediCw ((bE body p0).take (4 * q)) false ++ tail) (by simpa using niceTail_cons 240 _ (by omega))
+  simp only [List.append_assoc, List.cons_append, List.nil_append] at h1 ⊢
+  rw [h1]
+  have hok : EdiOK ((bE body p0).take (4 * q)) false tail :=
+    ⟨fun x hx => hc x (List.mem_of_mem_take hx), by
+      simp only [Bool.false_eq_true, ↓reduceIte, List.length_take]
+      exact ⟨by omega, ht⟩⟩
+  have h2 := seg_edifact _ false tail c0.length (out0 ++ body.take p0) [] hok
+  simp only [List.append_assoc, List.cons_append, List.nil_append] at h2
+  rw [h2]
+  congr 2
+  · simp only [List.length_append, List.length_cons]; omega
+  · rw [List.take_add]; rfl
+
+/-- the whole stretch, the last group with the UNLATCH value, in front of enough padding -/
+theorem edi_unlatch (pre out0 body c0 : List Nat) (p0 q : Nat) (hsync : Sync pre out0 body c0 p0)
+    (hc : EdiChars (bE body p0)) (hq : p0 + 4 * q ≤ body.length) (hr : (restE body p0 q).length ≤ 3)
+    (pads : List Nat) (hpads : (ediLast (restE body p0 q)).length + pads.length ≥ 3) :
+    decRun .ascii { rest := (cwE body p0 c0 q ++ ediLast (restE body p0 q)).drop pre.length ++ pads, eaten := pre.length,
+                    out := out0, ecis := [] } =
+    decRun .ascii { rest := pads, eaten := (cwE body p0 c0 q ++ ediLast (restE body p0 q)).length, out := out0 ++ body,
+                    ecis := [] } := by
+  obtain ⟨hpl, hpt, hs⟩ := hsync
+  have hblen : (bE body p0).length = body.length - p0 := by simp only [bE, List.length_drop]
+  have hrl : (bE body p0).length - 4 * q ≤ 3 := by
+    have := hr
+    simp only [restE, List.length_drop] at this
+    exact this
+  have hcw := ediC_eq_cw (bE body p0) q (by omega) hrl true (by simp)
+  simp only [↓reduceIte] at hcw
+  have hq4 : (bE body p0).length / 4 = q := by omega
+  unfold cwE
+  rw [List.append_assoc]
+  unfold restE at hpads ⊢
+  rw [hcw, drop_append_pre pre c0 _ hpl]
+  have h1 := hs ([240] ++ ediCw (bE body p0) true ++ pads) (by simpa using niceTail_cons 240 _ (by omega))
+  simp only [List.append_assoc, List.cons_append, List.nil_append] at h1 ⊢
+  rw [h1]
+  have hok : EdiOK (bE body p0) true pads := ⟨hc, by simp only [↓reduceIte]; rw [hq4]; exact hpads⟩
+  have h2 := seg_edifact _ true pads c0.length (out0 ++ body.take p0) [] hok
+  simp only [List.append_assoc, List.cons_append, List.nil_append] at h2
+  rw [h2]
+  congr 2
+  · simp only [List.length_append, List.length_cons]; omega
+  · simp only [bE]; rw [List.take_append_drop]
+
+/-- the encoder's `symbol_size_left` tests guarantee that the decoder finds three codewords from the
+start of the group that holds the UNLATCH value -/
+theorem unlatch_room (list : List Sym) (L : Nat) (r : List Nat) (hr : r.length ≤ 3) (hcr : EdiChars r)
+    (nok : ¬ AsciiEndOK list L r)
+    (room : ∃ S, firstBigEnough list (L + r.length) = some S ∧ (r.length = 0 → dataCw S - L > 2) ∧
+      (r.length ≠ 0 → r.length = 3 ∨ dataCw S - (L + r.length) > 0))
+    (sym : Sym) (hsym : firstBigEnough list (L + (ediLast r).length) = some sym) :
+    (ediLast r).length + (dataCw sym - (L + (ediLast r).length)) ≥ 3 := by
+  obtain ⟨S, hS, r0, r1⟩ := room
+  have hSge := firstBigEnough_le _ _ _ hS
+  match hbr : r, hr with
+  | [], _ =>
+    subst hbr
+    simp only [List.length_nil, Nat.add_zero, ediLast, List.length_singleton] at r0 hS hsym ⊢
+    have h2 := r0 trivial
+    have := fbe_mono list _ (L + 1) S hS (by omega) (by omega)
+    rw [this] at hsym
+    simp only [Option.some.injEq] at hsym
+    subst hsym
+    omega
+  | [x], _ =>
+    subst hbr
+    simp only [ediLast, List.length_cons, List.length_nil] at r1 hS hsym ⊢
+    have hge3 : dataCw S - L > 2 := by
+      by_cases hle : dataCw S - L ≤ 2
+      · exfalso
+        apply nok
+        have hx := (hcr x (by simp)).2
+        have hasz : asciiSize [x] = 1 := by simp [asciiSize]; omega
+        exact ⟨by simp, by omega, S, by rw [hasz]; exact hS, hle⟩
+      · omega
+    have := fbe_mono list _ (L + (0 + 1 + 1)) S hS (by omega) (by omega)
+    rw [this] at hsym
+    simp only [Option.some.injEq] at hsym
+    subst hsym
+    omega
+  | [_, _], _ => simp [ediLast]
+  | [_, _, _], _ => simp [ediLast]
+  | _ :: _ :: _ :: _ :: _, h => simp at h
+
+/-- the ASCII end game behind an EDIFACT run: at most two ASCII codewords and the padding -/
+theorem ascii_end_dec (pre out0 : List Nat) (list : List Sym) (body : List Nat) (hb : ByteList body) (cw cw' : List Nat) (pos : Nat)
+    (hpl : pre.length ≤ cw.length)
+    (sync : ∀ tail, tail.length ≤ 2 →
+      decRun .ascii { rest := cw.drop pre.length ++ tail, eaten := pre.length, out := out0, ecis := [] } =
+      decRun .ascii { rest := tail, eaten := cw.length, out := out0 ++ body.take pos, ecis := [] })
+    (ok : AsciiEndOK list cw.length (body.drop pos)) (hcw' : cw' = cw ++ asciiEnc (body.drop pos))
+    (S : Sym) (hS : firstBigEnough list cw'.length = some S) :
+    ∃ ef, decRun .ascii { rest := cw'.drop pre.length ++ DM.Props.C04.padsOf cw'.length (dataCw S - cw'.length),
+                          eaten := pre.length, out := out0, ecis := [] } =
+      .ok { rest := [], eaten := ef, out := out0 ++ body, ecis := [] } := by
+  subst hcw'
+  obtain ⟨hr4, hasz, S', hS', hroom⟩ := ok
+  have hrb : ByteList (body.drop pos) := hb.drop _
+  have hseg := asciiSeg_asciiEnc _ hrb
+  have haszlen : (asciiEnc (body.drop pos)).length = asciiSize (body.drop pos) := asciiEnc_length _ _ (Nat.le_refl _)
+  have hl2 : (cw ++ asciiEnc (body.drop pos)).length = cw.length + asciiSize (body.drop pos) := by simp [haszlen]
+  rw [hl2, hS'] at hS
+  simp only [Option.some.injEq] at hS
+  subst hS
+  have hSge := firstBigEnough_le _ _ _ hS'
+  obtain ⟨ef, hpads⟩ := DM.Props.C04.decRun_pads (cw ++ asciiEnc (body.drop pos)).length
+    (dataCw S' - (cw ++ asciiEnc (body.drop pos)).length) (out0 ++ body) []
+  refine ⟨ef, ?_⟩
+  have hplen := padsOf_length (cw ++ asciiEnc (body.drop pos)).length (dataCw S' - (cw ++ asciiEnc (body.drop pos)).length)
+  generalize DM.Props.C04.padsOf (cw ++ asciiEnc (body.drop pos)).length
+    (dataCw S' - (cw ++ asciiEnc (body.drop pos)).length) = P at hpads hplen ⊢
+  rw [drop_append_pre pre cw _ hpl, List.append_assoc, sync _ (by simp only [List.length_append, hplen, hl2, haszlen]; omega),
+    decRun_asciiSeg hseg, List.append_assoc, List.take_append_drop]
+  rw [hl2, ← haszlen] at hpads
+  exact hpads
+
+/-- an EDIFACT run (the final stretch of the message) extends the invariant -/
+theorem eend_MI (pre out0 : List Nat) (list : List Sym) (body : List Nat) (hb : ByteList body) (p0 : Nat) (c0 : List Nat)
+    (hc0 : HeadOK (c0.drop pre.length)) (s' : St) (hsync : Sync pre out0 body c0 p0) (hc : EdiChars (bE body p0))
+    (h : EEnd list body p0 c0 s') : MI true pre out0 list body s' := by
+  have hpl := hsync.1
+  have hpt := hsync.2.1
+  have hcwE : ∀ q, cwE body p0 c0 q = c0 ++ 240 :: packEdifact (((bE body p0).take (4 * q)).map (· % 64)) := fun q => rfl
+  have hlenE : ∀ q (Y : List Nat), pre.length ≤ (cwE body p0 c0 q ++ Y).length := by
+    intro q Y; rw [hcwE]; simp; omega
+  have htakeE : ∀ q (Y : List Nat), (cwE body p0 c0 q ++ Y).take pre.length = pre := by
+    intro q Y
+    rw [hcwE, List.append_assoc, take_append_pre pre c0 _ hpl]; exact hpt
+  have hhdE : ∀ q (Y : List Nat), HeadOK ((cwE body p0 c0 q ++ Y).drop pre.length) := by
+    intro q Y
+    rw [hcwE, List.append_assoc, drop_append_pre pre c0 _ hpl]
+    exact headOK_append hc0 (headOK_cons 240 _ (by omega))
+  cases h with
+  | ascii q hq ok eq =>
+    subst eq
+    rw [restE_eq] at ok
+    have hl := hlenE q []
+    have htk := htakeE q []
+    have hhd := hhdE q []
+    simp only [List.append_nil] at hl htk hhd
+    refine ⟨rfl, rfl, hq, hhd, ?_, fun he => by cases he⟩
+    by_cases hmore : (stAscii list body (p0 + 4 * q) (cwE body p0 c0 q)).hasMore = true
+    · exact .ediAscii rfl hmore hl htk (fun tail ht => edi_sync2 pre out0 body c0 p0 q hsync hc hq tail ht) rfl rfl rfl ok
+    · have hmf : (stAscii list body (p0 + 4 * q) (cwE body p0 c0 q)).hasMore = false := by simpa using hmore
+      refine .final rfl hmf rfl hl htk ?_
+      intro S hS
+      have hnil : body.drop (p0 + 4 * q) = [] := by
+        have := of_decide_eq_false hmf
+        simp only [stAscii] at this
+        exact List.drop_eq_nil_of_le (by omega)
+      exact ascii_end_dec pre out0 list body hb (cwE body p0 c0 q) _ (p0 + 4 * q) hl
+        (fun tail ht => edi_sync2 pre out0 body c0 p0 q hsync hc hq tail ht) ok (by simp [stAscii, hnil, asciiEnc]) S hS
+  | unlatch q hq hr nok room eq =>
+    subst eq
+    refine ⟨rfl, rfl, Nat.le_refl _, hhdE q _, ?_, fun he => by cases he⟩
+    refine .final rfl (by simp [St.hasMore, stAscii]) rfl (hlenE q _) (htakeE q _) ?_
+    intro S hS
+    simp only [stAscii] at hS ⊢
+    have hcr : EdiChars (restE body p0 q) := fun x hx => hc x (List.mem_of_mem_drop hx)
+    have hthree := unlatch_room list (cwE body p0 c0 q).length (restE body p0 q) hr hcr nok room S
+      (by rw [← List.length_append]; exact hS)
+    obtain ⟨ef, hpads⟩ := DM.Props.C04.decRun_pads (cwE body p0 c0 q ++ ediLast (restE body p0 q)).length
+      (dataCw S - (cwE body p0 c0 q ++ ediLast (restE body p0 q)).length) (out0 ++ body) []
+    refine ⟨ef, ?_⟩
+    rw [edi_unlatch pre out0 body c0 p0 q hsync hc hq hr _ (by rw [padsOf_length, List.length_append]; exact hthree)]
+    exact hpads
+  | exact q hq fit cw pos inp lst =>
+    have hl := hlenE q []
+    have htk := htakeE q []
+    have hhd := hhdE q []
+    simp only [List.append_nil] at hl htk hhd
+    have hmf : s'.hasMore = false := by simp [St.hasMore, pos, inp]
+    refine ⟨inp, lst, by rw [pos]; exact Nat.le_refl _, by rw [cw]; exact hhd, ?_, fun he => by cases he⟩
+    refine .done hmf (by rw [cw]; exact htk) ⟨s'.cw.length, ?_⟩ (by rw [cw]; exact fit)
+    have := edi_sync2 pre out0 body c0 p0 q hsync hc (by omega) [] (by simp)
+    simp only [List.append_nil] at this
+    rw [cw, this, decRun_nil _ _ rfl, hq, List.take_length]
 
 /-! ### one call of a mode encoder preserves the invariant -/
 
@@ -382,15 +668,89 @@ theorem take_add_seg (body : List Nat) (p k : Nat) :
     · rw [List.take_of_length_le (by omega), List.take_of_length_le (by omega), List.drop_eq_nil_of_le (by omega)]
       simp
 
-theorem step_MI (pre out0 : List Nat) (list : List Sym) (body : List Nat) (hb : ByteList body) (s s' : St)
-    (mi : MI pre out0 list body s)
-    (hmore : s.hasMore = true) (h : encodeMode (latched s) = .ok s') : MI pre out0 list body s' := by
+/-- the latch the ASCII encoder leaves pending is consistent -/
+theorem asciiLoop_pend : ∀ (f : Nat) (s s' : St), asciiLoop f s = .ok s' → s.mode = .ascii → s.newMode = none →
+    PlanOKE s.input s.plan → Pending s' := by
+  intro f
+  induction f with
+  | zero => intro s s' h; cases h
+  | succ f ih =>
+    intro s s' h hmode hnm hok
+    unfold asciiLoop at h
+    cases hm : s.maybeSwitch with
+    | error e => rw [hm] at h; cases h
+    | ok r =>
+      obtain ⟨b, s1⟩ := r
+      rw [hm] at h
+      obtain ⟨hsame, hpos, _, _, hf, _⟩ := maybeSwitch_spec s s1 b hm
+      cases b with
+      | true =>
+        simp only [Except.ok.injEq] at h
+        subst h
+        exact (switched_ok s s1 hnm hok hm).1
+      | false =>
+        simp only [] at h
+        obtain ⟨f1, f2⟩ := hf rfl
+        have hok1 : PlanOKE s1.input s1.plan := by rw [hsame.1]; exact planOKE_maybeSwitch s s1 false hm hok
+        by_cases htd : twoDigitsComing s1.rest = true
+        · rw [if_pos htd] at h
+          match hr : s1.rest, htd with
+          | a :: b :: t, htd =>
+            rw [hr] at h
+            simp only [] at h
+            exact ih _ s' h (f1.trans hmode) (f2.trans hnm) hok1
+          | [], htd => simp [twoDigitsComing] at htd
+          | [_], htd => simp [twoDigitsComing] at htd
+        · rw [if_neg htd] at h
+          cases he : s1.eat with
+          | none =>
+            rw [he] at h
+            simp only [Except.ok.injEq] at h
+            subst h
+            exact Or.inl ⟨f1.trans hmode, f2.trans hnm⟩
+          | some r2 =>
+            obtain ⟨ch, s2⟩ := r2
+            rw [he] at h
+            simp only [] at h
+            have hs2e : s2 = { s1 with pos := s1.pos + 1 } := by
+              simp only [St.eat] at he
+              split at he
+              · simp only [Option.some.injEq, Prod.mk.injEq] at he
+                exact he.2.symm
+              · cases he
+            subst hs2e
+            split at h
+            · exact ih _ s' h (f1.trans hmode) (f2.trans hnm) hok1
+            · exact ih _ s' h (f1.trans hmode) (f2.trans hnm) hok1
+
+theorem step_MI (e : Bool) (pre out0 : List Nat) (list : List Sym) (body : List Nat) (hb : ByteList body) (s s' : St)
+    (mi : MI e pre out0 list body s)
+    (hmore : s.hasMore = true) (h : encodeMode (latched s) = .ok s') : MI e pre out0 list body s' := by
   have hlt : s.pos < body.length := by
     have := of_decide_eq_true hmore
     rw [mi.inp] at this
     exact this
+  have hne' : e = false → NE (key s') := fun he =>
+    q_encodeMode ne_closed _ _ h (q_latched ne_closed s (mi.noE he))
   cases mi.phase with
   | done nomore _ _ _ => rw [hmore] at nomore; cases nomore
+  | final _ nomore _ _ _ _ => rw [hmore] at nomore; cases nomore
+  | ediAscii he _ len pfx sync mode plan nm ok =>
+    -- the ASCII end game behind an EDIFACT run
+    have hl : latched s = s := by simp [latched, nm]
+    rw [hl] at h
+    simp only [encodeMode, mode] at h
+    rw [asciiLoop_rest s plan mode (by rw [mi.inp]; exact mi.le)] at h
+    simp only [Except.ok.injEq] at h
+    subst h
+    have hrest : s.rest = body.drop s.pos := by simp [St.rest, mi.inp]
+    have hseg := asciiSeg_asciiEnc _ (hb.drop s.pos)
+    refine ⟨mi.inp, mi.lst, by simp [mi.inp],
+      by simp only [hrest]; rw [drop_append_pre pre s.cw _ len]; exact headOK_append mi.hd (headOK_asciiSeg hseg),
+      .final he (by simp [St.hasMore]) mode (by simp only [List.length_append]; omega)
+        (by simp only []; rw [take_append_pre pre s.cw _ len]; exact pfx) ?_, hne'⟩
+    intro S hS
+    exact ascii_end_dec pre out0 list body hb s.cw _ s.pos len sync ok (by simp only [hrest]) S hS
   | endgame _ sync mode plan nm one fit =>
     -- the single ASCII codeword that is still to come
     have hl : latched s = s := by simp [latched, nm]
@@ -408,7 +768,7 @@ theorem step_MI (pre out0 : List Nat) (list : List Sym) (body : List Nat) (hb : 
       by simp only [hrest]; rw [drop_append_pre pre s.cw _ spl]; exact headOK_append mi.hd (headOK_asciiSeg hseg),
       .done (by simp [St.hasMore]) (by simp only []; rw [take_append_pre pre s.cw _ spl]; exact spt)
         ⟨s.cw.length + (asciiEnc (body.drop s.pos)).length, ?_⟩
-      (by simpa [hrest, haszlen] using fit)⟩
+      (by simpa [hrest, haszlen] using fit), hne'⟩
     simp only [hrest]
     rw [drop_append_pre pre s.cw _ spl]
     have htail : NiceTail (asciiEnc (body.drop s.pos)) := by
@@ -440,7 +800,7 @@ theorem step_MI (pre out0 : List Nat) (list : List Sym) (body : List Nat) (hb : 
         rw [mi.inp] at this
         exact this
       refine ⟨hin', c4.2.trans mi.lst, hle',
-        by rw [c1, drop_append_pre pre s.cw _ sync.1]; exact headOK_append mi.hd (headOK_asciiSeg c2), ?_⟩
+        by rw [c1, drop_append_pre pre s.cw _ sync.1]; exact headOK_append mi.hd (headOK_asciiSeg c2), ?_, hne'⟩
       have hchunk : body.take s'.pos = body.take s.pos ++ (s.input.drop s.pos).take (s'.pos - s.pos) := by
         rw [mi.inp]
         have : s'.pos = s.pos + (s'.pos - s.pos) := by omega
@@ -451,27 +811,18 @@ theorem step_MI (pre out0 : List Nat) (list : List Sym) (body : List Nat) (hb : 
         have := sync_ascii sync c2 (by rw [hlenchunk]; rw [show s.pos + (s'.pos - s.pos) = s'.pos by omega]; exact hchunk)
         rw [hlenchunk, show s.pos + (s'.pos - s.pos) = s'.pos by omega, ← c1] at this
         exact this
-      have hplan' : PlanOK s'.plan := fun e he => plan e (c5 e he)
-      rcases c6 with ⟨a1, a2, a3⟩ | ⟨a1, a2, ⟨p, hp⟩, a4⟩
-      · exact .normal hs (Or.inl ⟨a2.trans hmode, a3.trans hnm⟩) hplan' (fun hne => absurd (a3.trans hnm) hne)
-      · rw [hnm] at a4
-        refine .normal hs ?_ hplan' (fun _ => a2)
-        cases hl2 : s'.mode.latch with
-        | none =>
-          exfalso
-          apply a1
-          rw [hmode]
-          cases hm : s'.mode <;> simp [hm, EMode.latch] at hl2
-          rfl
-        | some l =>
-          rw [hl2] at a4
-          exact Or.inr ⟨l, hl2, a4, (plan _ hp).2⟩
+      have hplan' : PlanOKE body s'.plan := q_asciiLoop (planOKE_closed body) _ s s' h plan
+      have hpend' : Pending s' := asciiLoop_pend _ s s' h hmode hnm (by rw [mi.inp]; exact plan)
+      rcases c6 with ⟨a1, a2, a3⟩ | ⟨a1, a2, _, a4⟩
+      · exact .normal hs hpend' hplan' (fun hne => absurd (a3.trans hnm) hne)
+      · exact .normal hs hpend' hplan' (fun _ => a2)
     | some l =>
-      have hpl : ∃ l', s.mode.latch = some l' ∧ s.newMode = some l' ∧ s.mode ≠ .edifact := by
+      have hpl : ∃ l', s.mode.latch = some l' ∧ s.newMode = some l' ∧
+          (s.mode = .edifact → (∀ e ∈ s.plan, e.2 = .edifact) ∧ EdiChars (s.input.drop (s.input.length - s.charsLeft))) := by
         rcases pend with ⟨_, b⟩ | hp
         · rw [hnm] at b; cases b
         · exact hp
-      obtain ⟨l', hlat, hnl, hnedi⟩ := hpl
+      obtain ⟨l', hlat, hnl, hedi⟩ := hpl
       have hll : l' = l := by rw [hnm] at hnl; cases hnl; rfl
       subst hll
       have hlatched : latched s = { s with newMode := none }.push l' := by simp [latched, hnm]
@@ -482,12 +833,28 @@ theorem step_MI (pre out0 : List Nat) (list : List Sym) (body : List Nat) (hb : 
       have hLpos : sL.pos = s.pos := by rw [← hsL]; rfl
       have hLnm : sL.newMode = none := by rw [← hsL]; rfl
       have hLcw : sL.cw = s.cw ++ [l'] := by rw [← hsL]; rfl
-      have hLplan : PlanOK sL.plan := by rw [← hsL]; exact plan
+      have hLplan : PlanOKE body sL.plan := by rw [← hsL]; exact plan
       have hLmode : sL.mode = s.mode := by rw [← hsL]; rfl
       have hLcl : sL.charsLeft = body.length - s.pos := by simp [St.charsLeft, hLin, hLpos]
       cases hm : s.mode with
       | ascii => rw [hm] at hlat; simp [EMode.latch] at hlat
-      | edifact => exact absurd hm hnedi
+      | edifact =>
+        cases e with
+        | false => exact absurd hm (mi.noE rfl).2.1
+        | true =>
+          rw [hm] at hlat hLmode
+          simp only [EMode.latch, Option.some.injEq] at hlat
+          subst hlat
+          simp only [encodeMode, hLmode] at h
+          obtain ⟨hallE, hchars⟩ := hedi hm
+          have hcE : EdiChars (bE body s.pos) := by
+            have : s.input.length - s.charsLeft = s.pos := by
+              simp only [St.charsLeft, mi.inp]; omega
+            rw [this, mi.inp] at hchars
+            exact hchars
+          have hend := edifactEncode_gen list body s.pos s.cw sL s' hLin hLli hLpos mi.le hLmode hLnm hLcw
+            (by rw [← hsL]; exact hallE) hcE h
+          exact eend_MI pre out0 list body hb s.pos s.cw mi.hd s' sync hcE hend
       | c40 =>
         rw [hm] at hlat hLmode
         simp only [EMode.latch, Option.some.injEq] at hlat
@@ -498,7 +865,7 @@ theorem step_MI (pre out0 : List Nat) (list : List Sym) (body : List Nat) (hb : 
             by simp [Wb, hLpos, seg_self], by simp, by simp [Wb, hLpos, seg_self, packTriples, latchOf, hLcw], by omega⟩
         have hend := c40Loop_gen false list body hb s.pos s.cw (body.length - s.pos) (sL.charsLeft + 2) sL [] 0 0 s'
           (by rw [hLpos]) (by omega) inv0 hLplan h
-        exact tend_MI pre out0 list body s.pos s.cw (latchOf false) (by simp [latchOf]) (by simp [latchOf]) mi.hd s' sync (c40_to_TEnd false list body s.pos s.cw s' hend)
+        exact tend_MI e pre out0 list body s.pos s.cw (latchOf false) (by simp [latchOf]) (by simp [latchOf]) mi.hd s' sync (c40_to_TEnd false list body s.pos s.cw s' hend) hne'
       | text =>
         rw [hm] at hlat hLmode
         simp only [EMode.latch, Option.some.injEq] at hlat
@@ -509,14 +876,14 @@ theorem step_MI (pre out0 : List Nat) (list : List Sym) (body : List Nat) (hb : 
             by simp [Wb, hLpos, seg_self], by simp, by simp [Wb, hLpos, seg_self, packTriples, latchOf, hLcw], by omega⟩
         have hend := c40Loop_gen true list body hb s.pos s.cw (body.length - s.pos) (sL.charsLeft + 2) sL [] 0 0 s'
           (by rw [hLpos]) (by omega) inv0 hLplan h
-        exact tend_MI pre out0 list body s.pos s.cw (latchOf true) (by simp [latchOf]) (by simp [latchOf]) mi.hd s' sync (c40_to_TEnd true list body s.pos s.cw s' hend)
+        exact tend_MI e pre out0 list body s.pos s.cw (latchOf true) (by simp [latchOf]) (by simp [latchOf]) mi.hd s' sync (c40_to_TEnd true list body s.pos s.cw s' hend) hne'
       | x12 =>
         rw [hm] at hlat hLmode
         simp only [EMode.latch, Option.some.injEq] at hlat
         subst hlat
         simp only [encodeMode, hLmode] at h
         have hend := x12Encode_gen list body s.pos s.cw sL s' hLin hLli hLpos mi.le hLnm hLcw hLplan h
-        exact tend_MI pre out0 list body s.pos s.cw 238 (by omega) (by omega) mi.hd s' sync hend
+        exact tend_MI e pre out0 list body s.pos s.cw 238 (by omega) (by omega) mi.hd s' sync hend hne'
       | base256 =>
         rw [hm] at hlat hLmode
         simp only [EMode.latch, Option.some.injEq] at hlat
@@ -530,13 +897,13 @@ theorem step_MI (pre out0 : List Nat) (list : List Sym) (body : List Nat) (hb : 
         have hend := b256Loop_gen list body hb s.pos s.cw (body.length - s.pos) (sL.charsLeft + 2) (sL.push 0) s'
           (by simp [St.push, hLpos]) (by omega) inv0 (by simpa [St.push] using hLplan)
           (Or.inl (by simp only [St.hasMore, St.push, hLin, hLpos]; simpa [St.hasMore, mi.inp] using hmore)) h
-        exact bend_MI pre out0 list body hb s.pos s.cw mi.hd s' sync hend
+        exact bend_MI e pre out0 list body hb s.pos s.cw mi.hd s' sync hend hne'
 
 /-! ### the main loop and the whole run -/
 
-theorem mainLoop_MI (pre out0 : List Nat) (list : List Sym) (body : List Nat) (hb : ByteList body) :
-    ∀ (f : Nat) (s : St) (k : Nat) (sE : St), Enc.mainLoop f s k = .ok sE → MI pre out0 list body s →
-      MI pre out0 list body sE ∧ sE.hasMore = false := by
+theorem mainLoop_MI (e : Bool) (pre out0 : List Nat) (list : List Sym) (body : List Nat) (hb : ByteList body) :
+    ∀ (f : Nat) (s : St) (k : Nat) (sE : St), Enc.mainLoop f s k = .ok sE → MI e pre out0 list body s →
+      MI e pre out0 list body sE ∧ sE.hasMore = false := by
   intro f
   induction f with
   | zero => intro s k sE h; cases h
@@ -544,7 +911,7 @@ theorem mainLoop_MI (pre out0 : List Nat) (list : List Sym) (body : List Nat) (h
     intro s k sE h mi
     by_cases hmore : s.hasMore = true
     · obtain ⟨s', k', he, hm⟩ := mainLoop_step f s sE k h hmore
-      exact ih s' k' sE hm (step_MI pre out0 list body hb s s' mi hmore he)
+      exact ih s' k' sE hm (step_MI e pre out0 list body hb s s' mi hmore he)
     · have hmf : s.hasMore = false := by simpa using hmore
       rw [mainLoop_end _ _ _ hmf] at h
       simp only [Except.ok.injEq] at h
@@ -583,24 +950,40 @@ theorem run_unfoldP (list : List Sym) (pre body cw : List Nat) (plan : List (Nat
         subst h1 h2
         exact ⟨sE, rfl, hf, ha⟩
 
-/-- the decoder's main loop, started behind the prefix codewords, returns the message -/
-theorem run_decRun (pre out0 : List Nat) (list : List Sym) (body cw : List Nat) (plan : List (Nat × EMode)) (sym : Sym)
-    (hb : ByteList body) (hplan : PlanOK plan) (h : run list pre body plan = .ok (cw, sym)) :
+/-- the decoder's main loop, started behind the prefix codewords, returns the message
+(plans in which EDIFACT may be the final stretch) -/
+theorem run_decRun_E (pre out0 : List Nat) (list : List Sym) (body cw : List Nat) (plan : List (Nat × EMode)) (sym : Sym)
+    (hb : ByteList body) (hplan : PlanOKE body plan) (h : run list pre body plan = .ok (cw, sym)) :
     cw.take pre.length = pre ∧ HeadOK (cw.drop pre.length) ∧
     ∃ e, decRun .ascii { rest := cw.drop pre.length, eaten := pre.length, out := out0, ecis := [] } =
       .ok { rest := [], eaten := e, out := out0 ++ body, ecis := [] } := by
   obtain ⟨sE, hmain, hsym, hpad⟩ := run_unfoldP list pre body cw plan sym h
-  have mi0 : MI pre out0 list body { input := body, pos := 0, mode := .ascii, plan := plan, newMode := none, cw := pre, list := list } :=
+  have mi0 : MI true pre out0 list body { input := body, pos := 0, mode := .ascii, plan := plan, newMode := none, cw := pre, list := list } :=
     ⟨rfl, rfl, Nat.zero_le _, by intro c hc; simp at hc,
-      .normal (sync_init pre out0 body) (Or.inl ⟨rfl, rfl⟩) hplan (fun hne => absurd rfl hne)⟩
-  obtain ⟨miE, hmf⟩ := mainLoop_MI pre out0 list body hb _ _ 0 sE hmain mi0
+      .normal (sync_init pre out0 body) (Or.inl ⟨rfl, rfl⟩) hplan (fun hne => absurd rfl hne), fun he => by cases he⟩
+  obtain ⟨miE, hmf⟩ := mainLoop_MI true pre out0 list body hb _ _ 0 sE hmain mi0
   have hposl : sE.pos = body.length := by
     have := of_decide_eq_false hmf
     rw [miE.inp] at this
     have := miE.le
     omega
+  have hbeq : (EMode.ascii == EMode.ascii) = true := by decide
+  have hcap := firstBigEnough_le list _ sym hsym
   cases miE.phase with
   | endgame more _ _ _ _ _ _ => rw [hmf] at more; cases more
+  | ediAscii _ more _ _ _ _ _ _ _ => rw [hmf] at more; cases more
+  | final _ _ mode len pfx dec =>
+    rw [mode, hbeq, addPadding_ascii_pads _ _ hcap] at hpad
+    simp only [Option.some.injEq] at hpad
+    subst hpad
+    obtain ⟨ef, hdec⟩ := dec sym hsym
+    refine ⟨by rw [take_append_pre pre sE.cw _ len]; exact pfx, ?_, ef, ?_⟩
+    · rw [drop_append_pre pre sE.cw _ len]
+      apply headOK_append miE.hd
+      unfold HeadOK DM.Props.C04.padsOf
+      split <;> simp
+    · rw [drop_append_pre pre sE.cw _ len]
+      exact hdec
   | done _ pfx dec fit =>
     obtain ⟨S, f1, f2⟩ := fit
     rw [f1] at hsym
@@ -620,15 +1003,11 @@ theorem run_decRun (pre out0 : List Nat) (list : List Sym) (body cw : List Nat) 
       rcases pend with ⟨a, _⟩ | ⟨l, _, b, _⟩
       · exact a
       · rw [hnm] at b; cases b
-    have hcap := firstBigEnough_le list _ sym hsym
-    have hbeq : (EMode.ascii == EMode.ascii) = true := by decide
     rw [hmode, hbeq, addPadding_ascii_pads _ _ hcap] at hpad
     simp only [Option.some.injEq] at hpad
     subst hpad
     obtain ⟨ef, hpads⟩ := DM.Props.C04.decRun_pads sE.cw.length (dataCw sym - sE.cw.length) (out0 ++ body) []
-    have hnice : NiceTail (DM.Props.C04.padsOf sE.cw.length (dataCw sym - sE.cw.length)) := by
-      unfold NiceTail DM.Props.C04.padsOf
-      split <;> simp
+    have hnice : NiceTail (DM.Props.C04.padsOf sE.cw.length (dataCw sym - sE.cw.length)) := niceTail_pads _ _
     refine ⟨by rw [take_append_pre pre sE.cw _ spl]; exact spt, ?_, ef, ?_⟩
     · rw [drop_append_pre pre sE.cw _ spl]
       apply headOK_append miE.hd
@@ -637,20 +1016,36 @@ theorem run_decRun (pre out0 : List Nat) (list : List Sym) (body cw : List Nat) 
     · rw [drop_append_pre pre sE.cw _ spl, sync _ hnice, hposl, List.take_length]
       exact hpads
 
+/-- the decoder's main loop, started behind the prefix codewords, returns the message -/
+theorem run_decRun (pre out0 : List Nat) (list : List Sym) (body cw : List Nat) (plan : List (Nat × EMode)) (sym : Sym)
+    (hb : ByteList body) (hplan : PlanOK plan) (h : run list pre body plan = .ok (cw, sym)) :
+    cw.take pre.length = pre ∧ HeadOK (cw.drop pre.length) ∧
+    ∃ e, decRun .ascii { rest := cw.drop pre.length, eaten := pre.length, out := out0, ecis := [] } =
+      .ok { rest := [], eaten := e, out := out0 ++ body, ecis := [] } :=
+  run_decRun_E pre out0 list body cw plan sym hb (planOKE_of_planOK body hplan) h
+
+/-- **Data-level round trip for mixed plans** over ASCII, C40, Text, X12, Base 256 and — as the final
+stretch of the message — EDIFACT, in which no latch to a non-ASCII mode is planned for the last
+four characters. -/
+theorem general_roundtrip_E (list : List Sym) (body cw : List Nat) (plan : List (Nat × EMode)) (sym : Sym)
+    (hb : ByteList body) (hplan : PlanOKE body plan) (h : run list [] body plan = .ok (cw, sym)) :
+    decodeData cw = .ok body := by
+  obtain ⟨_, hhd, e, hdec⟩ := run_decRun_E [] [] list body cw plan sym hb hplan h
+  simp only [List.length_nil, List.drop_zero, List.nil_append] at hhd hdec
+  exact decodeData_of_decRun _ body e hhd hdec
+
 /-- **Data-level round trip for mixed plans** over ASCII, C40, Text, X12 and Base 256 in which no
 latch to a non-ASCII mode is planned for the last four characters. -/
 theorem general_roundtrip (list : List Sym) (body cw : List Nat) (plan : List (Nat × EMode)) (sym : Sym)
     (hb : ByteList body) (hplan : PlanOK plan) (h : run list [] body plan = .ok (cw, sym)) :
-    decodeData cw = .ok body := by
-  obtain ⟨_, hhd, e, hdec⟩ := run_decRun [] [] list body cw plan sym hb hplan h
-  simp only [List.length_nil, List.drop_zero, List.nil_append] at hhd hdec
-  exact decodeData_of_decRun _ body e hhd hdec
+    decodeData cw = .ok body :=
+  general_roundtrip_E list body cw plan sym hb (planOKE_of_planOK body hplan) h
 
 /-- the same behind an FNC1 codeword in first position (GS1): the decoder returns the message -/
-theorem fnc1_roundtrip (list : List Sym) (body cw : List Nat) (plan : List (Nat × EMode)) (sym : Sym)
-    (hb : ByteList body) (hplan : PlanOK plan) (h : run list [232] body plan = .ok (cw, sym)) :
+theorem fnc1_roundtrip_E (list : List Sym) (body cw : List Nat) (plan : List (Nat × EMode)) (sym : Sym)
+    (hb : ByteList body) (hplan : PlanOKE body plan) (h : run list [232] body plan = .ok (cw, sym)) :
     decodeData cw = .ok body := by
-  obtain ⟨hpfx, hhd, e, hdec⟩ := run_decRun [232] [] list body cw plan sym hb hplan h
+  obtain ⟨hpfx, hhd, e, hdec⟩ := run_decRun_E [232] [] list body cw plan sym hb hplan h
   simp only [List.length_singleton, List.nil_append] at hpfx hhd hdec
   have hcw : cw = 232 :: cw.drop 1 := by
     conv => lhs; rw [← List.take_append_drop 1 cw, hpfx]
@@ -663,11 +1058,16 @@ theorem fnc1_roundtrip (list : List Sym) (body cw : List Nat) (plan : List (Nat 
   rw [hdec]
   simp [partsFinish]
 
+theorem fnc1_roundtrip (list : List Sym) (body cw : List Nat) (plan : List (Nat × EMode)) (sym : Sym)
+    (hb : ByteList body) (hplan : PlanOK plan) (h : run list [232] body plan = .ok (cw, sym)) :
+    decodeData cw = .ok body :=
+  fnc1_roundtrip_E list body cw plan sym hb (planOKE_of_planOK body hplan) h
+
 /-- the same behind a Macro 05 / Macro 06 codeword: the decoder re-creates header and trailer -/
-theorem macro_roundtrip (six : Bool) (list : List Sym) (body cw : List Nat) (plan : List (Nat × EMode)) (sym : Sym)
-    (hb : ByteList body) (hplan : PlanOK plan) (h : run list [if six then 237 else 236] body plan = .ok (cw, sym)) :
+theorem macro_roundtrip_E (six : Bool) (list : List Sym) (body cw : List Nat) (plan : List (Nat × EMode)) (sym : Sym)
+    (hb : ByteList body) (hplan : PlanOKE body plan) (h : run list [if six then 237 else 236] body plan = .ok (cw, sym)) :
     decodeData cw = .ok ((if six then macroHead06 else macroHead05) ++ body ++ macroTrail) := by
-  obtain ⟨hpfx, hhd, e, hdec⟩ := run_decRun [if six then 237 else 236] (if six then macroHead06 else macroHead05)
+  obtain ⟨hpfx, hhd, e, hdec⟩ := run_decRun_E [if six then 237 else 236] (if six then macroHead06 else macroHead05)
     list body cw plan sym hb hplan h
   simp only [List.length_singleton] at hpfx hhd hdec
   have hcw : cw = (if six then 237 else 236) :: cw.drop 1 := by
@@ -693,5 +1093,10 @@ theorem macro_roundtrip (six : Bool) (list : List Sym) (body cw : List Nat) (pla
     simp only [List.length_singleton] at hdec
     rw [hdec]
     simp [partsFinish]
+
+theorem macro_roundtrip (six : Bool) (list : List Sym) (body cw : List Nat) (plan : List (Nat × EMode)) (sym : Sym)
+    (hb : ByteList body) (hplan : PlanOK plan) (h : run list [if six then 237 else 236] body plan = .ok (cw, sym)) :
+    decodeData cw = .ok ((if six then macroHead06 else macroHead05) ++ body ++ macroTrail) :=
+  macro_roundtrip_E six list body cw plan sym hb (planOKE_of_planOK body hplan) h
 
 end DM.Lemmas.MainRT
